@@ -247,6 +247,11 @@ func makeCfg0(rng *rand.Rand, i, rot int) Cfg {
 		}
 		c.Junk, c.JunkWhere = "half-dies", "pre"
 	}
+	if i%10 == 4 {
+		// one case in ten: the operator is in no hurry after the shell has gone
+		// (longer than any stop watchdog of ten or twenty seconds)
+		c.SelfWait = 23000 + rng.IntN(8000)
+	}
 	c.NTok, c.NLines = 220, 220
 	c.Log = []string{"", "file", "devnull", "", "fifo", "env-file", "devnull"}[(i+rot)%7]
 	c.OneCPU = rng.IntN(4) == 0
@@ -1060,6 +1065,7 @@ func (e *env) preJunk() bool {
 		if c.Junk == "several" && c.Hold {
 			e.bodiedRequests("/i/" + id) // the last one is a duplicate input stream: refused
 			e.requestsInProgress()
+			e.crowd()
 		}
 		in.Close()
 		if _, _, ok := e.notice(`Shell is gone`, mark, boundNotice*e.mult); !ok {
@@ -1650,6 +1656,36 @@ func (e *env) requestsInProgress() {
 	time.Sleep(150 * time.Millisecond)
 }
 
+// crowd: many clients that have been served or refused and simply stay
+// connected (keep-alive connections nobody closes): several hundred of them,
+// more than any connection cap of 256, before the real shell arrives.
+func (e *env) crowd() {
+	n := 330 + e.rng.IntN(60)
+	var mu sync.Mutex
+	got := 0
+	mon.Parallel(n, 16, func(k int) {
+		c, err := hk.Dial(e.addr, "")
+		if err != nil {
+			return
+		}
+		target := []string{"/c", "/f.txt", "/no-such-file", "/i/"}[k%4] // the last one: refused (no ID)
+		fmt.Fprintf(c, "GET %s HTTP/1.1\r\nHost: fake.shell\r\n\r\n", target)
+		c.SetReadDeadline(time.Now().Add(boundNotice * e.mult))
+		buf := make([]byte, 4096)
+		m, _ := c.Read(buf)
+		c.SetReadDeadline(time.Time{})
+		mu.Lock()
+		e.conns = append(e.conns, connCloser{c})
+		if m > 0 {
+			got++
+		}
+		mu.Unlock()
+	})
+	e.tl.add("JUNK  a crowd of %d keep-alive clients (GET /c, a file, a missing file, an ID-less /i/), %d answered; all stay connected", n, got)
+	e.held = append(e.held, fmt.Sprintf("%d answered keep-alive connections", got))
+	e.res.count("junk_crowd_connections_answered_and_kept_open", int64(got))
+}
+
 // openRealOut opens the real shell's output request: chunked, or with a
 // declared length of 200 000 bytes of which only the tokens (a few KB) are ever
 // sent — less than 256 KiB stay outstanding, which is the range in which
@@ -1942,6 +1978,9 @@ func (e *env) afterGone(goneEnd int, dropConns func()) {
 			return
 		}
 		res.count("exits_after_one_line", 1)
+		if c.SelfWait > 20000 {
+			res.count("exits_after_an_unhurried_line", 1)
+		}
 		res.count("exits_observed", 1)
 		e.tl.add("EXIT  after one entered line: status %d signal %q", st, sig)
 	}
@@ -2343,6 +2382,7 @@ func Run(r *mon.Run) {
 		"progress bounds: refusal 20 s after the ready notice, exit 30 s after the one entered line, traffic 30 s; a fired bound is re-tried alone with the bound doubled, up to three times (the first two cases per bound; three in the thorough tier): " +
 			"a violation is a bound that fired under load AND again in a run alone with the bound doubled",
 		"clients hang up as soon as they are refused / their shell is gone (as curl does when its pipe ends); with hold=true (every tenth case by construction, one in six otherwise) they never hang up by themselves",
+		"the same case is preceded by a crowd of 330-390 clients that were served or refused (GET /c, a file, a missing file, an ID-less /i/) and keep their connections open to the end; one case in ten enters its one line only 23-31 s after the shell has gone (floor exits_after_an_unhurried_line; a program that has left by itself before that with status 0 is fine, with another status it is exit-status-nonzero)",
 		"requests left hanging in the middle (every tenth case, the one whose refused uploads stay connected): before the real shell arrives, clients send a form POST to /c (curl -d c2=..., documented) of which only a part arrives (declared length, chunked), an OPTIONS * request with an unfinished body (answered by net/http itself, no handler of the program sees it), and GET /big.bin (64 MiB, sparse) whose answer they never read; they stay connected and silent to the end; this is traffic in flight when the listener closes, and the program must still exit at the operator's next line (key does-not-exit-after-one-line:request-in-progress-still-connected)",
 		"the process is given 2 s (every fifth case 10 s) to exit by itself before exactly one empty line is entered",
 		"late requests on pre-opened connections: whether they are served, refused or find their connection already closed is promised neither way and only counted (late_*); " +
@@ -2574,6 +2614,8 @@ func Run(r *mon.Run) {
 		// requests left hanging in the middle (one case in ten)
 		r.Floor("junk_requests_in_progress_left_hanging", int64(n/10)*4)
 		r.Floor("junk_downloads_left_hanging", int64(n/10))
+		r.Floor("junk_crowd_connections_answered_and_kept_open", int64(n/10)*300)
+		r.Floor("exits_after_an_unhurried_line", int64(n/20))
 	}
 	if r.Replaying() {
 		return
